@@ -105,7 +105,12 @@ def load_outcome(gtirb, raw, limit=20):
 
 
 def check_accepted(ctx, gtirb, ir, replay, what, fclass=""):
-    prob = coherence_problem(gtirb, ir)
+    try:
+        with core.time_limit(60):
+            prob = coherence_problem(gtirb, ir)
+    except (Exception, core.ImplTimeout) as e:   # noqa
+        prob = "inspecting the returned IR raised %s: %s" % (
+            type(e).__name__, str(e)[:80])
     if prob is None:
         # files with a duplicated UUID are C17's quantifier, not C09's (the
         # loader lets one duplicate through: a block and its own interval)
@@ -356,9 +361,12 @@ def run(ctx):
             if mmsg is not None:
                 M = irdump.dump_mir(mmsg)
                 if ir is not None:
-                    V = irdump.dump_irv(gtirb, ir, ms.msg_aux_bytes(
-                        gtirb, mmsg, ir))
-                    obs = "ok " + " ".join(V)
+                    try:
+                        V = irdump.dump_irv(gtirb, ir, ms.msg_aux_bytes(
+                            gtirb, mmsg, ir))
+                        obs = "ok " + " ".join(V)
+                    except Exception as e:   # noqa (ill-typed IR: judged
+                        obs = "ok ?dump-raised:" + type(e).__name__   # above)
                 else:
                     obs = out
 
@@ -369,6 +377,8 @@ def run(ctx):
                     # notation (e.g. a negative enum number): `bad-op`
                     if b == "bad-op" and fclass in ("bitflip", "byteflip"):
                         return True
+                    if ms.is_rejection(a) and ms.is_rejection(b):
+                        return True     # rejected by both (class: see there)
                     return b == "err:dup" or fclass == "duplicate-uuid"
                 tie.add_checked("file %d %s" % (fno, what),
                                 ["frommsg " + " ".join(M)], [obs], cb)
